@@ -375,9 +375,9 @@ Section Lazy.
       (* k is missing, so K says: its value is not the target unless lazy-and-missing; but missing
          keys come from lazy_attrs and were assigned Some *)
       (* missing s is a sub-multiset of lazy_attrs obtained by removals: show k lazy *)
-      assert (Hsub : forall args0 (sA sB : mstate) kvs, setattrs sA kvs = Some sB ->
+      assert (Hsub : forall (sA sB : mstate) kvs, setattrs sA kvs = Some sB ->
                        forall q, mem q (missing sB) = true -> mem q (missing sA) = true).
-      { intros _ sA sB kvs. revert sA sB. induction kvs as [|[a b] r' IH]; intros sA sB Es q Hq; simpl in Es.
+      { intros sA sB kvs. revert sA sB. induction kvs as [|[a b] r' IH]; intros sA sB Es q Hq; simpl in Es.
         - inversion Es; subst; assumption.
         - destruct (setattr_cases sA a b) as [sx [Ex [_ [_ C]]]]. rewrite Ex in Es.
           pose proof (IH sx sB Es q Hq) as Hx.
@@ -391,11 +391,11 @@ Section Lazy.
                   (combine params (map vals params))) as [s1|] eqn:E1; [|discriminate].
       assert (Hms : missing s = missing s1).
       { unfold is_fully_specified in E; simpl in E. destruct (missing s1) eqn:M1.
-        - unfold init_modules_, validate, is_fully_specified in E; simpl in E. rewrite M1 in E.
+        - unfold init_modules_, validate, is_fully_specified in E; simpl in E.
           inversion E; subst; simpl; auto.
         - inversion E; subst; simpl; auto. }
       rewrite Hms in Hm.
-      pose proof (Hsub (map vals params) _ _ _ E1 k Hm) as Hl. simpl in Hl.
+      pose proof (Hsub _ _ _ E1 k Hm) as Hl. simpl in Hl.
       destruct (HL k Hl) as [Hin Hnn].
       (* the loop assigned vals k <> None to k while k was missing, so it was removed *)
       assert (Hrem : forall ps (sA sB : mstate), setattrs sA (combine ps (map vals ps)) = Some sB ->
@@ -410,7 +410,7 @@ Section Lazy.
             - rewrite Hm'. apply mem_remove_self.
             - rewrite Hm'. apply mem_remove_self. }
           destruct (mem k (missing sB)) eqn:Hb; [|reflexivity].
-          rewrite (Hsub [] _ _ _ Es k Hb) in Hx. discriminate.
+          rewrite (Hsub _ _ _ Es k Hb) in Hx. discriminate.
         - destruct Hp as [Hp | Hp]; [congruence|]. eapply IH; eauto. }
       rewrite (Hrem params _ _ E1 Hin) in Hm. discriminate. }
     split; [assumption|].
@@ -437,8 +437,8 @@ Section Lazy.
     destruct (run_inv ops s0 s I0 E) as [_ [[N _] | [_ [snap Fs]]]]; [contradiction|].
     rewrite Fs in Hn.
     destruct Hf as [F | F]; rewrite F in Hn; simpl in Hn.
-    - destruct n as [|[|n]]; simpl in Hn; try discriminate. assumption.
-    - destruct n; simpl in Hn; [assumption | discriminate].
+    - destruct n as [|[|n]]; simpl in Hn; try discriminate. inversion Hn; subst. assumption.
+    - destruct n; simpl in Hn; [|discriminate]. inversion Hn; subst. assumption.
   Qed.
 End Lazy.
 
@@ -497,7 +497,7 @@ Section StypeWiseForward.
             end
         end) sts (Some (xs0, ns0)) = Some (xs, ns) ->
       exists parts, Forall2 (part_ok cnd enc) sts parts /\
-                    xs = xs0 ++ concat (map fst parts) /\ ns = ns0 ++ concat (map snd parts).
+                    xs = xs0 ++ List.concat (map fst parts) /\ ns = ns0 ++ List.concat (map snd parts).
   Proof.
     intros cnd fd enc. induction sts as [|s r IH]; intros xs0 ns0 xs ns H; simpl in H.
     - inversion H; subst. exists []. simpl. rewrite !app_nil_r. repeat split; constructor.
@@ -522,7 +522,7 @@ Section StypeWiseForward.
   Lemma forward_order : forall cnd fd enc xs ns,
       stypewise_forward A cnd fd enc = Some (xs, ns) ->
       exists parts, Forall2 (part_ok cnd enc) (tf_stypes fd) parts /\
-                    xs = concat (map fst parts) /\ ns = concat (map snd parts).
+                    xs = List.concat (map fst parts) /\ ns = List.concat (map snd parts).
   Proof.
     intros cnd fd enc xs ns H. unfold stypewise_forward in H.
     destruct (forward_fold _ _ _ _ _ _ _ _ H) as [parts [HF [Hx Hn]]].
@@ -539,3 +539,25 @@ Section StypeWiseForward.
     rewrite !app_length, IH. destruct Hp as [_ [_ Hl]]. rewrite Hl. reflexivity.
   Qed.
 End StypeWiseForward.
+
+(* ----------------------------------------------- generated tables (finite) *)
+(* every supported pairing of a built-in class is a documented one, and every key a class
+   supports other than through the user-model wrapper is a parent stype *)
+Lemma supported_is_documented :
+  forall e s, stype_in s (encoder_supported e) = true -> stype_in s (documented_stypes e) = true.
+Proof. intros e s. destruct e, s; vm_compute; intro H; try reflexivity; discriminate. Qed.
+
+Lemma documented_is_supported :
+  forall e s, stype_in s (documented_stypes e) = true -> stype_in s (encoder_supported e) = true.
+Proof. intros e s. destruct e, s; vm_compute; intro H; try reflexivity; discriminate. Qed.
+
+Lemma stype_encoder_signature_ok :
+  NoDup stype_encoder_params /\
+  (forall k, mem k stype_encoder_lazy_attrs = true -> In k stype_encoder_params).
+Proof.
+  split.
+  - unfold stype_encoder_params. repeat constructor; simpl; intuition discriminate.
+  - intros k H. unfold stype_encoder_lazy_attrs, mem in H. simpl in H.
+    repeat (apply orb_true_iff in H; destruct H as [H | H]); try discriminate;
+      apply String.eqb_eq in H; subst; vm_compute; tauto.
+Qed.
